@@ -104,7 +104,7 @@ func registerHTTPNatives(P *Program, reg func(string, func(fr *frame, args []val
 		m := fr.m
 		var out []value
 		for _, site := range m.P.handleCallSites() {
-			out = append(out, structure{site.pattern, site.fn, m.tt.Bool(site.wrapped)})
+			out = append(out, structure{site.pattern, site.fn, m.tt.Bool(site.wrapped), m.tt.Bool(site.bare)})
 		}
 		return out
 	})
@@ -113,7 +113,8 @@ func registerHTTPNatives(P *Program, reg func(string, func(fr *frame, args []val
 
 type handleSite struct {
 	pattern, fn string
-	wrapped     bool
+	wrapped     bool // the handler argument is syntactically the result of (*Server).Authenticate
+	bare        bool // the handler argument is syntactically an endpoint constructor or a plain function
 }
 
 // handleCallSites scans the SSA of every function of brutella/hc for calls of
@@ -160,13 +161,21 @@ func (P *Program) handleCallSites() []handleSite {
 					}
 					break
 				}
-				wrapped := false
-				if c, ok := h.(*ssa.Call); ok {
-					if sc := c.Call.StaticCallee(); sc != nil && strings.HasSuffix(sc.String(), "hap/http.Server).Authenticate") {
-						wrapped = true
+				wrapped, bare := false, false
+				switch c := h.(type) {
+				case *ssa.Call:
+					if sc := c.Call.StaticCallee(); sc != nil {
+						if strings.HasSuffix(sc.String(), "hap/http.Server).Authenticate") {
+							wrapped = true
+						} else if sc.Pkg != nil && strings.HasSuffix(sc.Pkg.Pkg.Path(), "hap/endpoint") && strings.HasPrefix(sc.Name(), "New") {
+							bare = true
+						}
 					}
+				case *ssa.Function, *ssa.MakeClosure:
+					// HandleFunc(pattern, f): a plain function or closure, no wrapper in between
+					bare = true
 				}
-				out = append(out, handleSite{pat, fn.String(), wrapped})
+				out = append(out, handleSite{pat, fn.String(), wrapped, bare})
 			}
 		}
 	}
